@@ -52,13 +52,9 @@ theorem icmp_parseHead_good (b : Bytes) :
   intro body c5 i5 s5 ⟨ho, hr, hx⟩
   obtain ⟨orig, recv, trans⟩ := body
   dsimp only at ho hr hx ⊢
-  by_cases he : Icmp4.extAllowed t
-  · simp only [he, if_true]
-    refine bind_good (tryParseExt_good c5 _ _ i5) (.inr rfl) ?_
-    intro ext c6 i6 s6 _
-    exact .inl ⟨_, c6, rfl, i6, by omega, ⟨hun, ho, hr, hx⟩, by omega⟩
-  · simp only [he, Bool.false_eq_true, if_false]
-    exact .inl ⟨_, c5, rfl, i5, by omega, ⟨hun, ho, hr, hx⟩, by omega⟩
+  refine bind_good (tryParseExtIf_good _ c5 _ i5) (.inr rfl) ?_
+  intro ext c6 i6 s6 _
+  exact .inl ⟨_, c6, rfl, i6, by omega, ⟨hun, ho, hr, hx⟩, by omega⟩
 
 /-- **C01 / ICMP**: for every byte string the parsing constructor returns a packet or throws `malformed_packet`; the
     raw accesses of the extension search stay inside the buffer -/
